@@ -19,20 +19,32 @@ import (
 type Expr interface{ String() string }
 
 type (
-	EInt    struct{ V string }
-	EStr    struct{ V string } // decoded bytes
-	EBool   struct{ V bool }
-	ENil    struct{}
-	EIdent  struct{ Name string }
-	EUnary  struct{ Op string; X Expr }
-	EBinary struct{ Op string; L, R Expr }
-	ECond   struct{ C, A, B Expr }
-	EField  struct{ X Expr; Name string }
-	EIndex  struct{ X, I Expr }
-	ESlice  struct{ X, Lo, Hi Expr }
-	ECall   struct{ Fn string; Args []Expr }
-	EOld    struct{ X Expr }
-	EQuant  struct {
+	EInt   struct{ V string }
+	EStr   struct{ V string } // decoded bytes
+	EBool  struct{ V bool }
+	ENil   struct{}
+	EIdent struct{ Name string }
+	EUnary struct {
+		Op string
+		X  Expr
+	}
+	EBinary struct {
+		Op   string
+		L, R Expr
+	}
+	ECond  struct{ C, A, B Expr }
+	EField struct {
+		X    Expr
+		Name string
+	}
+	EIndex struct{ X, I Expr }
+	ESlice struct{ X, Lo, Hi Expr }
+	ECall  struct {
+		Fn   string
+		Args []Expr
+	}
+	EOld   struct{ X Expr }
+	EQuant struct {
 		Forall   bool
 		Vars     []Binder
 		Triggers [][]Expr
@@ -464,17 +476,17 @@ func (p *parser) typeName() string {
 // ---------- contract files ----------
 
 type Clause struct {
-	Kind  string // requires ensures invariant decreases atreturn atcall assume
-	Label string
-	Props []string
-	Loop  int    // loop ordinal (1-based) for invariant/decreases
-	Site  string // callee key + #k for atcall
-	Assumed  bool // ensures: assumed at call sites, not proved against the body
-	Required bool // atcall: the call must exist (its disappearance fails the clause instead of making it vacuous)
-	Src   string
-	E     Expr
-	File  string
-	Line  int
+	Kind     string // requires ensures invariant decreases atreturn atcall assume
+	Label    string
+	Props    []string
+	Loop     int    // loop ordinal (1-based) for invariant/decreases
+	Site     string // callee key + #k for atcall
+	Assumed  bool   // ensures: assumed at call sites, not proved against the body
+	Required bool   // atcall: the call must exist (its disappearance fails the clause instead of making it vacuous)
+	Src      string
+	E        Expr
+	File     string
+	Line     int
 }
 
 type ModLoc struct {
@@ -483,29 +495,29 @@ type ModLoc struct {
 }
 
 type FuncContract struct {
-	Key        string
-	Props      []string
-	Clauses    []*Clause
-	Modifies   []ModLoc
-	HasMod     bool
-	MayPanic   bool
-	NoSafety   bool // run-time safety obligations (index, slice, nil map, type assertion, division) are not generated
-	Inline     bool
-	Trusted    bool // contract assumed, body not verified (dependencies, interfaces)
-	Pure       bool // modifies nothing
-	NilCheck   bool
-	Overflow   bool
-	Lets       []LetDef
-	File       string
-	Line       int
-	Thorough   bool // only in thorough tier
-	Ghosts     []Binder // ghost parameters
-	Used       bool
-	ChanInvs   []chanInvDef
-	Defines    *ECall // `defines result == F(params)`: definitional name of the closure a constructor returns
-	NoVerify   bool
-	Flows      []*FlowClause
-	Asset      *AssetSpec // data obligations over embedded files (asset.go)
+	Key      string
+	Props    []string
+	Clauses  []*Clause
+	Modifies []ModLoc
+	HasMod   bool
+	MayPanic bool
+	NoSafety bool // run-time safety obligations (index, slice, nil map, type assertion, division) are not generated
+	Inline   bool
+	Trusted  bool // contract assumed, body not verified (dependencies, interfaces)
+	Pure     bool // modifies nothing
+	NilCheck bool
+	Overflow bool
+	Lets     []LetDef
+	File     string
+	Line     int
+	Thorough bool     // only in thorough tier
+	Ghosts   []Binder // ghost parameters
+	Used     bool
+	ChanInvs []chanInvDef
+	Defines  *ECall // `defines result == F(params)`: definitional name of the closure a constructor returns
+	NoVerify bool
+	Flows    []*FlowClause
+	Asset    *AssetSpec // data obligations over embedded files (asset.go)
 }
 
 type LetDef struct {
@@ -538,16 +550,16 @@ type ChanMode struct {
 }
 
 type SpecSet struct {
-	Funcs   map[string]*FuncContract // key -> contract (quick)
-	Thor    map[string]*FuncContract // thorough-only extra contracts
-	Specs   map[string]*SpecFunc
-	Axioms  []*Axiom
-	Ghosts  map[string]*GhostVar
-	Chans   map[string]string
-	Secrets map[string]*SecretField // pkg.Type.field -> functions allowed to read it
-	Guards  []*GuardSpec
+	Funcs          map[string]*FuncContract // key -> contract (quick)
+	Thor           map[string]*FuncContract // thorough-only extra contracts
+	Specs          map[string]*SpecFunc
+	Axioms         []*Axiom
+	Ghosts         map[string]*GhostVar
+	Chans          map[string]string
+	Secrets        map[string]*SecretField // pkg.Type.field -> functions allowed to read it
+	Guards         []*GuardSpec
 	GlobalChanInvs []chanInvDef // invariants of channels held in struct fields: Name is pkg.Type.field
-	Errors  []string
+	Errors         []string
 }
 
 func NewSpecSet() *SpecSet {
